@@ -12,9 +12,11 @@ class SymChunk(SymVal):
     value(i): the i-th byte as a fresh constant (cached); le(): little-endian value as a fresh constant."""
     _n = 0
 
-    def __init__(self, length, origin):
+    def __init__(self, length, origin, start=None, stream=None):
         self.length = simplify_native(length)
         self.origin = origin
+        self.start = start          # position in `stream` where the chunk begins (None: unknown provenance)
+        self.stream = stream
         SymChunk._n += 1
         self.uid = f"{origin}!{sink().counter}"
         sink().counter += 1
@@ -39,12 +41,23 @@ class SymChunk(SymVal):
         if not ctx.branch(self.length > idx if is_sym(self.length) else self.length > idx):
             raise PyRaise(IndexError)
         if idx not in self._bytes:
-            b = z3.Int(f"{self.uid}.byte{idx}")
-            sink().add(z3.And(b >= 0, b <= 255))
+            if self.stream is not None:
+                b = self.stream.byte_at(self.start + idx)
+            else:
+                b = z3.Int(f"{self.uid}.byte{idx}")
+                sink().add(z3.And(b >= 0, b <= 255))
             self._bytes[idx] = b
         return self._bytes[idx]
 
     def sym_from_bytes(self, ctx, order):
+        if self.stream is not None and not is_sym(self.length) and self.length <= 8:
+            # the integer IS the positional value of the stream bytes it was read from
+            n = self.length
+            v = 0
+            for i in range(n):
+                w = i if order == "little" else n - 1 - i
+                v = v + self.stream.byte_at(self.start + i) * 256 ** w
+            return simplify_native(v)
         if self._le is None:
             v = z3.Int(f"{self.uid}.{order}")
             n = self.length
@@ -75,6 +88,12 @@ class SymStream(SymVal):
     def __init__(self, size, pos=0, name="s"):
         self.size, self.pos, self.name = size, pos, name
         self.reads = 0
+        self.content = z3.Function(f"{name}!content", z3.IntSort(), z3.IntSort())       # byte at each position
+
+    def byte_at(self, pos):
+        b = self.content(L.toint(pos) if hasattr(L, "toint") else pos)
+        sink().add(z3.And(b >= 0, b <= 255))
+        return b
 
     def sym_type(self):
         return io.BytesIO
@@ -86,18 +105,18 @@ class SymStream(SymVal):
                 self.reads += 1
                 avail = self.size - self.pos
                 if n is None or (not is_sym(n) and n < 0):
-                    ch = SymChunk(avail, f"{self.name}.read{self.reads}")
+                    ch = SymChunk(avail, f"{self.name}.read{self.reads}", self.pos, self)
                     self.pos = self.size
                     return ch
                 if is_sym(n) and ctx.branch(n < 0):
-                    ch = SymChunk(avail, f"{self.name}.read{self.reads}")
+                    ch = SymChunk(avail, f"{self.name}.read{self.reads}", self.pos, self)
                     self.pos = self.size
                     return ch
                 if ctx.branch(avail >= n):
-                    ch = SymChunk(n, f"{self.name}.read{self.reads}")
+                    ch = SymChunk(n, f"{self.name}.read{self.reads}", self.pos, self)
                     self.pos = self.pos + n
                 else:
-                    ch = SymChunk(avail, f"{self.name}.read{self.reads}")       # short read
+                    ch = SymChunk(avail, f"{self.name}.read{self.reads}", self.pos, self)       # short read
                     self.pos = self.size
                 return ch
             return read
